@@ -390,9 +390,20 @@ def _dedup(rows):
     return out
 
 
+def _pack(t_rows, u_rows):
+    """tables as one integer per row (the model does not read them; keeps the case files small):
+    t(id, x, g) -> id*100 + x*10 + g ;  u(id, tid) -> id*100 + tid"""
+    return [i * 100 + x * 10 + g for i, x, g in t_rows], [j * 100 + tid for j, tid in u_rows]
+
+
+def _unpack(tp, up):
+    return [[v // 100, v // 10 % 10, v % 10] for v in tp], [[v // 100, v % 100] for v in up]
+
+
 def _mk(dialect, lim, off, qid, ek, t_rows, u_rows):
     pre, distinct, nkey, ordered = _reference(qid, t_rows, u_rows)
-    return [dialect, lim, off, ordered, distinct, nkey, pre, [qid, ek, t_rows, u_rows]]
+    tp, up = _pack(t_rows, u_rows)
+    return [dialect, lim, off, ordered, distinct, nkey, pre, [qid, ek, tp, up]]
 
 
 def _dataset(rng, nmax=8):
@@ -433,7 +444,7 @@ def gen_cases(rng, tier):
                 for off in _off_specs([0, 1, 9]):
                     cases.append({"in": _mk(d, lim, off, qid, rng.randint(0, 1), D0[0], D0[1]), "kind": "exhaustive"})
     # ---- random block
-    nrand = 12000 if tier == "thorough" else 1800
+    nrand = 12000 if tier == "thorough" else 1400
     ndata = 60 if tier == "thorough" else 12
     datasets = [_dataset(rng) for _ in range(ndata)]
     for _ in range(nrand):
@@ -830,7 +841,8 @@ def _interpret(plan, full, nkey):
 def impl(c):
     from sqlalchemy import exc
 
-    d, lim, off, ordered, distinct, nkey, pre, (qid, ek, t_rows, u_rows) = c["in"]
+    d, lim, off, ordered, distinct, nkey, pre, (qid, ek, tp, up) = c["in"]
+    t_rows, u_rows = _unpack(tp, up)
     facts = _S["facts"]
     conn = _conn(t_rows, u_rows)
     dialect = _S["dialects"][d]
